@@ -6,6 +6,7 @@ import KoordVerif.Proofs.C05ExtProf
 import KoordVerif.Proofs.C05ExtProf2
 import KoordVerif.Proofs.C05ExtUnr
 import KoordVerif.Proofs.C05ExtSel
+import KoordVerif.Proofs.C05ExtCtl
 /-
 C05 — reservations are never over-allocated and only serve their owners.
 
@@ -264,6 +265,39 @@ theorem labels_only_guard_drops_expressions_counterexample :
   decide
 
 example : selectorSatisfied selEx podStable := by unfold selectorSatisfied; decide
+
+/-! ### 4c. the owner CONTROLLER reference (round 8; model of MatchReservationControllerReference in Model/C05Ctl.lean:
+    the `ctrl` boolean of an owner entry, read from the spec's reference and the pod's ownerReferences) -/
+
+/-- the 3x3 table of (spec flag, pod flag), 0 nil / 1 true / 2 false: no flag in the spec accepts every pod flag, an
+    explicit flag accepts only the same explicit flag - never an unset one -/
+theorem owner_controller_flag_table :
+    (ctlFlagOk 0 0, ctlFlagOk 0 1, ctlFlagOk 0 2) = (true, true, true) ∧
+    (ctlFlagOk 1 0, ctlFlagOk 1 1, ctlFlagOk 1 2) = (false, true, false) ∧
+    (ctlFlagOk 2 0, ctlFlagOk 2 1, ctlFlagOk 2 2) = (false, false, true) := ctl_flag_table
+
+/-- whatever the pod's ownerReferences: an accepted controller reference names the pod's namespace (if it names one)
+    and ONE ownerReference of the pod that agrees with every non-empty field of the spec (uid, name, kind, apiVersion)
+    and - explicit flag in the spec - carries the controller flag, present and equal -/
+theorem owner_controller_ref_satisfied (specNs podNs : Int) (s : CtlRef) (refs : List CtlRef)
+    (h : matchControllerRef specNs podNs s refs = true) :
+    (specNs = 0 ∨ specNs = podNs) ∧
+    ∃ p ∈ refs, (s.flag ≠ 0 → p.flag ≠ 0 ∧ p.flag = s.flag) ∧ (s.uid = 0 ∨ s.uid = p.uid) ∧ (s.name = 0 ∨ s.name = p.name) ∧
+      (s.kind = 0 ∨ s.kind = p.kind) ∧ (s.api = 0 ∨ s.api = p.api) := controller_ref_satisfied specNs podNs s refs h
+
+/-- a spec that states the flag is never satisfied by a pod whose ownerReferences all leave it unset -/
+theorem owner_controller_flag_unset_never_matches (specNs podNs : Int) (s : CtlRef) (refs : List CtlRef)
+    (hs : s.flag ≠ 0) (hp : ∀ p ∈ refs, p.flag = 0) : matchControllerRef specNs podNs s refs = false :=
+  controller_flag_unset_never_matches specNs podNs s refs hs hp
+
+/-- seeded round-6 change (guard "pod's flag is UNSET or equal"): it breaks the rule on (spec true, pod nil); the code
+    as written rejects the pod whose only ownerReference equals the spec in uid / name / kind / apiVersion but has no flag -/
+theorem owner_controller_flag_unset_or_equal_counterexample :
+    ¬ (∀ s p : Int, ctlFlagOkUnsetOrEqual s p = true → s ≠ 0 → p ≠ 0 ∧ p = s) ∧
+    ctlFlagOkUnsetOrEqual 1 0 = true ∧
+    matchControllerRef 0 1 ⟨1, 1, 1, 1, 1⟩ [⟨0, 1, 1, 1, 1⟩] = false := controller_flag_unset_or_equal_counterexample
+
+example : matchControllerRef 1 1 ⟨2, 1, 0, 1, 0⟩ [⟨1, 1, 1, 1, 1⟩, ⟨2, 1, 2, 1, 1⟩] = true := by decide
 
 /-- a name-pinned or affinity-selected pod is matched only if the exact-match spec holds too -/
 theorem match_implies_exact (x : MatchCtx) (ok : Bool) (h : checkMatched x ok = true) (hi : x.ignored = false) :
